@@ -1,8 +1,11 @@
 (* C28: a network of floodsub nodes as one labelled transition system.
 
-   Per node: seenMessages, the keys of m.channels, peerChannels and the
-   publishCh queue; per directed link a FIFO queue (one global list from which
-   the first packet of a given (src, dst) pair is taken).  Messages are
+   Per node: seenMessages, the keys of m.channels, peerChannels, the peers map
+   and the publishCh queue.  As in the code a peer session is identified by a
+   pubsub.PeerLinkTuple (peer, link id): two nodes may be joined by several
+   parallel links, each with its own FIFO queue per direction (one global list
+   from which the first packet of a given (src, dst, link) triple is taken),
+   its own peers entry on either side and its own peerChannels entries.  Messages are
    identified by (origin, channel, sequence number): the message id is a free
    function of the signed message, so different publishes have different ids
    (named assumption: two publishes never produce the same signed bytes).
@@ -11,17 +14,26 @@
    One action per lock region of the Go code:
      Publish m   FloodSub.Publish -> handleValidMessage at the origin
                  (seenMessages.Add, callbacks spawned under m.mtx, publishCh push)
-     Recv u v    readPump of v reads the next packet of link u->v;
-                 handlePublish (subscribed check) -> handleValidMessage
+     Recv u v l  readPump of v reads the next packet of link l from u;
+                 handlePublish (subscribed check) -> handleValidMessage; if the
+                 session of v on that link has ended the packet is lost
      Exec n      Execute loop of n takes one publishCh entry: execPublish
-                 (writes to every announced peer except origin and previous hop)
+                 (writes to every announced tuple whose peer is neither the origin
+                 nor the previous hop and which is in the peers map)
+     LinkUp u v l    AddPeerStream + the loop body that starts the session: u
+                 has a peers entry for tuple (v, l)
+     PeerGone u v l  the session of u for tuple (v, l) ended: delete(m.peers);
+                 the peerChannels entries of the tuple are NOT removed (as in
+                 the code) - they are ignored while the tuple is not in peers
      SetPC/SetChan  handleSubscriptions / AddSubscription+sweep (used only to
                  show the safety theorems do not depend on a stable topology)
    No proofs in this file. *)
 From Bifrost Require Import Lib.Base.
 
 Record msg := Msg { m_origin : nat; m_ch : nat; m_seq : nat }.
-Record pkt := Pkt { p_src : nat; p_dst : nat; p_msg : msg }.
+Record pkt := Pkt { p_src : nat; p_dst : nat; p_lid : nat; p_msg : msg }.
+Record lk := LK { k_u : nat; k_v : nat; k_l : nat }.              (* u has a peers entry for tuple (v, l) *)
+Record pce := PC { c_u : nat; c_v : nat; c_l : nat; c_ch : nat }.  (* peerChannels[ch] of u contains tuple (v, l) *)
 Record pend := Pend { q_node : nat; q_prev : nat; q_msg : msg }.
 
 Definition msg_eqb (a b : msg) : bool :=
@@ -31,21 +43,24 @@ Record net := Net {
   seen : list (nat * msg);          (* (node, message) pairs in the seen caches *)
   flight : list pkt;                (* packets written and not yet read *)
   pubq : list pend;                 (* publishCh entries not yet executed *)
-  pc : list (nat * nat * nat);      (* (u, v, ch): peerChannels[ch] of u contains v *)
-  chans : list (nat * nat)          (* (n, ch): m.channels of n has key ch *)
+  pc : list pce;                    (* peerChannels *)
+  chans : list (nat * nat);         (* (n, ch): m.channels of n has key ch *)
+  up : list lk                      (* peers maps *)
 }.
 
 Inductive nact :=
 | Publish (m : msg)
-| Recv (u v : nat)
+| Recv (u v l : nat)
 | Exec (n : nat)
-| SetPC (u v ch : nat) (b : bool)
-| SetChan (n ch : nat) (b : bool).
+| SetPC (u v l ch : nat) (b : bool)
+| SetChan (n ch : nat) (b : bool)
+| LinkUp (u v l : nat)
+| PeerGone (u v l : nat).
 
 Inductive nobs :=
 | Handed (n : nat) (m : msg)          (* every subscription of n on the channel gets one callback job for m *)
 | Accepted (n from : nat) (m : msg)   (* n inserted m into its seen cache, having it from [from] (itself when publishing) *)
-| Sent (u v : nat) (m : msg).         (* u wrote m on its stream to v *)
+| Sent (u v l : nat) (m : msg).       (* u wrote m on its stream of link l to v *)
 
 Definition seen_b (n : nat) (m : msg) (l : list (nat * msg)) : bool :=
   existsb (fun e => Nat.eqb (fst e) n && msg_eqb (snd e) m) l.
@@ -53,16 +68,20 @@ Definition seen_b (n : nat) (m : msg) (l : list (nat * msg)) : bool :=
 Definition chan_b (n ch : nat) (l : list (nat * nat)) : bool :=
   existsb (fun e => Nat.eqb (fst e) n && Nat.eqb (snd e) ch) l.
 
-Definition pc_b (u v ch : nat) (l : list (nat * nat * nat)) : bool :=
-  existsb (fun e => Nat.eqb (fst (fst e)) u && Nat.eqb (snd (fst e)) v && Nat.eqb (snd e) ch) l.
+Definition pce_is (u v l ch : nat) (e : pce) : bool :=
+  Nat.eqb (c_u e) u && Nat.eqb (c_v e) v && Nat.eqb (c_l e) l && Nat.eqb (c_ch e) ch.
+Definition pc_b (u v l ch : nat) (pcl : list pce) : bool := existsb (pce_is u v l ch) pcl.
 
-(* first packet of link u->v *)
-Fixpoint take_pkt (u v : nat) (l : list pkt) : option (pkt * list pkt) :=
+Definition lk_is (u v l : nat) (e : lk) : bool := Nat.eqb (k_u e) u && Nat.eqb (k_v e) v && Nat.eqb (k_l e) l.
+Definition up_b (u v l : nat) (ups : list lk) : bool := existsb (lk_is u v l) ups.
+
+(* first packet of link lid from u to v *)
+Fixpoint take_pkt (u v lid : nat) (l : list pkt) : option (pkt * list pkt) :=
   match l with
   | [] => None
   | p :: l' =>
-      if Nat.eqb (p_src p) u && Nat.eqb (p_dst p) v then Some (p, l')
-      else match take_pkt u v l' with
+      if Nat.eqb (p_src p) u && Nat.eqb (p_dst p) v && Nat.eqb (p_lid p) lid then Some (p, l')
+      else match take_pkt u v lid l' with
            | Some (q, r) => Some (q, p :: r)
            | None => None
            end
@@ -80,54 +99,59 @@ Fixpoint take_pend (n : nat) (l : list pend) : option (pend * list pend) :=
            end
   end.
 
-(* execPublish: peers announced for the channel, except the origin and the previous hop *)
-Definition targets (pcl : list (nat * nat * nat)) (n prev : nat) (m : msg) : list nat :=
-  map (fun e => snd (fst e))
-      (filter (fun e => Nat.eqb (fst (fst e)) n && Nat.eqb (snd e) (m_ch m)
-                        && negb (Nat.eqb (snd (fst e)) (m_origin m))
-                        && negb (Nat.eqb (snd (fst e)) prev)) pcl).
+(* execPublish: tuples announced for the channel whose peer is neither the
+   origin nor the previous hop and which are in the peers map *)
+Definition targets (pcl : list pce) (ups : list lk) (n prev : nat) (m : msg) : list (nat * nat) :=
+  map (fun e => (c_v e, c_l e))
+      (filter (fun e => Nat.eqb (c_u e) n && Nat.eqb (c_ch e) (m_ch m)
+                        && negb (Nat.eqb (c_v e) (m_origin m))
+                        && negb (Nat.eqb (c_v e) prev)
+                        && up_b n (c_v e) (c_l e) ups) pcl).
 
 (* handleValidMessage at node n for message m coming from [from] *)
 Definition handle_valid (s : net) (n from : nat) (m : msg) : net * list nobs :=
   if seen_b n m (seen s) then (s, [])
   else
-    (Net ((n, m) :: seen s) (flight s) (pubq s ++ [Pend n from m]) (pc s) (chans s),
+    (Net ((n, m) :: seen s) (flight s) (pubq s ++ [Pend n from m]) (pc s) (chans s) (up s),
      Accepted n from m :: (if chan_b n (m_ch m) (chans s) then [Handed n m] else [])).
 
 Definition nstep (s : net) (a : nact) : net * list nobs :=
   match a with
   | Publish m => handle_valid s (m_origin m) (m_origin m) m
-  | Recv u v =>
-      match take_pkt u v (flight s) with
+  | Recv u v l =>
+      match take_pkt u v l (flight s) with
       | None => (s, [])
       | Some (p, rest) =>
-          let s1 := Net (seen s) rest (pubq s) (pc s) (chans s) in
-          if chan_b v (m_ch (p_msg p)) (chans s) then handle_valid s1 v u (p_msg p)
+          let s1 := Net (seen s) rest (pubq s) (pc s) (chans s) (up s) in
+          if up_b v u l (up s) && chan_b v (m_ch (p_msg p)) (chans s) then handle_valid s1 v u (p_msg p)
           else (s1, [])
       end
   | Exec n =>
       match take_pend n (pubq s) with
       | None => (s, [])
       | Some (q, rest) =>
-          let ts := targets (pc s) n (q_prev q) (q_msg q) in
-          (Net (seen s) (flight s ++ map (fun v => Pkt n v (q_msg q)) ts) rest (pc s) (chans s),
-           map (fun v => Sent n v (q_msg q)) ts)
+          let ts := targets (pc s) (up s) n (q_prev q) (q_msg q) in
+          (Net (seen s) (flight s ++ map (fun t => Pkt n (fst t) (snd t) (q_msg q)) ts) rest (pc s) (chans s) (up s),
+           map (fun t => Sent n (fst t) (snd t) (q_msg q)) ts)
       end
-  | SetPC u v ch b =>
+  | SetPC u v l ch b =>
       if b then
-        (if pc_b u v ch (pc s) then (s, [])
-         else (Net (seen s) (flight s) (pubq s) (pc s ++ [(u, v, ch)]) (chans s), []))
+        (if pc_b u v l ch (pc s) then (s, [])
+         else (Net (seen s) (flight s) (pubq s) (pc s ++ [PC u v l ch]) (chans s) (up s), []))
       else
-        (Net (seen s) (flight s) (pubq s)
-             (filter (fun e => negb (Nat.eqb (fst (fst e)) u && Nat.eqb (snd (fst e)) v && Nat.eqb (snd e) ch)) (pc s))
-             (chans s), [])
+        (Net (seen s) (flight s) (pubq s) (filter (fun e => negb (pce_is u v l ch e)) (pc s)) (chans s) (up s), [])
   | SetChan n ch b =>
       if b then
         (if chan_b n ch (chans s) then (s, [])
-         else (Net (seen s) (flight s) (pubq s) (pc s) (chans s ++ [(n, ch)]), []))
+         else (Net (seen s) (flight s) (pubq s) (pc s) (chans s ++ [(n, ch)]) (up s), []))
       else
         (Net (seen s) (flight s) (pubq s) (pc s)
-             (filter (fun e => negb (Nat.eqb (fst e) n && Nat.eqb (snd e) ch)) (chans s)), [])
+             (filter (fun e => negb (Nat.eqb (fst e) n && Nat.eqb (snd e) ch)) (chans s)) (up s), [])
+  | LinkUp u v l =>
+      if up_b u v l (up s) then (s, [])
+      else (Net (seen s) (flight s) (pubq s) (pc s) (chans s) (up s ++ [LK u v l]), [])
+  | PeerGone u v l =>
+      (Net (seen s) (flight s) (pubq s) (pc s) (chans s) (filter (fun e => negb (lk_is u v l e)) (up s)), [])
   end.
 
 Fixpoint nrun (s : net) (l : list nact) : net * list nobs :=
@@ -141,27 +165,35 @@ Fixpoint nrun (s : net) (l : list nact) : net * list nobs :=
 
 (* only message traffic: the topology and the subscriptions stay as they are *)
 Definition traffic (a : nact) : bool :=
-  match a with Publish _ | Recv _ _ | Exec _ => true | _ => false end.
+  match a with Publish _ | Recv _ _ _ | Exec _ => true | _ => false end.
 
 Definition quiescent (s : net) : Prop := flight s = [] /\ pubq s = [].
 
-(* v is connected to x by a path of links on which every node after x has the channel key *)
-Inductive reach (link : nat -> nat -> bool) (s : net) (ch : nat) (x : nat) : nat -> Prop :=
-| reach_refl : reach link s ch x x
-| reach_step u v : reach link s ch x u -> link u v = true -> chan_b v ch (chans s) = true -> reach link s ch x v.
+(* u has a session to v that is up on both sides *)
+Definition linked (s : net) (u v : nat) : Prop := exists l, In (LK u v l) (up s).
 
-(* subscriptions announced over the links: peerChannels mirror the neighbours' channel keys *)
-Definition announced (link : nat -> nat -> bool) (s : net) : Prop :=
-  (forall u v ch, In (u, v, ch) (pc s) -> chan_b v ch (chans s) = true) /\
-  (forall u v ch, link u v = true -> chan_b v ch (chans s) = true -> In (u, v, ch) (pc s)).
+(* v is connected to x by a path of links that are up, on which every node after x has the channel key *)
+Inductive reach (s : net) (ch : nat) (x : nat) : nat -> Prop :=
+| reach_refl : reach s ch x x
+| reach_step u v : reach s ch x u -> linked s u v -> chan_b v ch (chans s) = true -> reach s ch x v.
 
-Definition fresh (s : net) : Prop := seen s = [] /\ flight s = [] /\ pubq s = [].
+(* stabilised: sessions are up on both sides or on neither; over the sessions
+   that are up, peerChannels mirror the neighbours' channel keys (entries of
+   tuples that are not in the peers map may be anything) *)
+Definition announced (s : net) : Prop :=
+  (forall u v l, In (LK u v l) (up s) -> In (LK v u l) (up s)) /\
+  (forall u v l ch, In (PC u v l ch) (pc s) -> In (LK u v l) (up s) -> chan_b v ch (chans s) = true) /\
+  (forall u v l ch, In (LK u v l) (up s) -> chan_b v ch (chans s) = true -> In (PC u v l ch) (pc s)).
+
+(* nothing in flight, nothing pending; the message has not been published yet *)
+Definition stable (s : net) : Prop := flight s = [] /\ pubq s = [].
+Definition unseen (m : msg) (s : net) : Prop := forall n, ~ In (n, m) (seen s).
 
 Definition nobs_eqb (a b : nobs) : bool :=
   match a, b with
   | Handed n m, Handed n' m' => Nat.eqb n n' && msg_eqb m m'
   | Accepted n f m, Accepted n' f' m' => Nat.eqb n n' && Nat.eqb f f' && msg_eqb m m'
-  | Sent u v m, Sent u' v' m' => Nat.eqb u u' && Nat.eqb v v' && msg_eqb m m'
+  | Sent u v l m, Sent u' v' l' m' => Nat.eqb u u' && Nat.eqb v v' && Nat.eqb l l' && msg_eqb m m'
   | _, _ => false
   end.
 
@@ -173,7 +205,7 @@ Definition next_act (s : net) : option nact :=
   match pubq s with
   | q :: _ => Some (Exec (q_node q))
   | [] => match flight s with
-          | p :: _ => Some (Recv (p_src p) (p_dst p))
+          | p :: _ => Some (Recv (p_src p) (p_dst p) (p_lid p))
           | [] => None
           end
   end.
